@@ -74,19 +74,31 @@ def run_histories(histories, workdir: str, procs: int) -> dict:
     workers are created once per process and would not be clones of *this* interpreter state)."""
     S.setup()  # parent: define the pool before forking, never execute a step here
     trie = build_trie(histories)
-    jobs = []
-    for i, (lab, node) in enumerate(sorted(trie.items())):
-        jobs.append({"first": lab, "node": node, "out": os.path.join(workdir, f"engine_obs_{os.getpid()}_{i}.jsonl")})
+
+    def size(node):
+        return 1 + sum(size(c) for c in node.values())
+
+    # one job per first call; a first call with a large subtree is split into several jobs (each
+    # repeats the first call in its own session) so that no driver process gets a long serial chain
+    total = sum(size(n) for n in trie.values())
+    limit = max(8, total // max(1, procs))
+    parts = []
+    for lab, node in sorted(trie.items()):
+        kids = sorted(node.items())
+        if size(node) <= limit or len(kids) < 2:
+            parts.append((lab, node))
+            continue
+        k = min(len(kids), -(-size(node) // limit))
+        for c in range(k):
+            parts.append((lab, dict(kids[c::k])))
+    jobs = [{"first": lab, "node": node, "out": os.path.join(workdir, f"engine_obs_{os.getpid()}_{i}.jsonl")}
+            for i, (lab, node) in enumerate(parts)]
     for j in jobs:
         if os.path.exists(j["out"]):
             os.unlink(j["out"])
     sys.stdout.flush()
     sys.stderr.flush()
     procs = max(1, min(procs, len(jobs)))
-
-    def size(node):
-        return 1 + sum(size(c) for c in node.values())
-
     # longest-processing-time-first assignment of subtrees to driver processes
     loads, groups = [0] * procs, [[] for _ in range(procs)]
     for j in sorted(jobs, key=lambda j: -size(j["node"])):
